@@ -72,7 +72,12 @@ theorem encLen_enc : ∀ (s : Schema) (v : Value) (b : Bytes), wfS s = true →
     simp only [enc] at h
     simp only [wfS, Bool.and_eq_true] at hw
     simpa [encLen] using encLenList_enc e vs b hw.2 h
-  | .map k v, _, b, hw, _ => by simp [wfS] at hw
+  | .map k v, .map es, b, hw, h => by
+    simp only [enc] at h
+    simp only [wfS, Bool.and_eq_true] at hw
+    simpa [encLen] using encLenMap_enc k v es b hw.1.1.1.2 hw.1.2 h
+  | .map _ _, .uint _, _, _, h | .map _ _, .bool, _, _, h | .map _ _, .bytes _, _, _, h
+  | .map _ _, .name _, _, _, h | .map _ _, .model _, _, _, h | .map _ _, .list _, _, _, h => by simp [enc] at h
   | .marker, _, b, hw, _ => by simp [wfS] at hw
   | .uint _ _, .bool, _, _, h | .uint _ _, .bytes _, _, _, h | .uint _ _, .name _, _, _, h
   | .uint _ _, .model _, _, _, h | .uint _ _, .list _, _, _, h | .uint _ _, .map _, _, _, h => by simp [enc] at h
@@ -108,6 +113,17 @@ theorem encLenList_enc : ∀ (e : Schema) (vs : List Value) (b : Bytes), wfS e =
     simp only [pure, Except.pure] at h3; cases h3
     simp [encLenList, encLen_enc e v a hw ha, encLenList_enc e vs c hw hc, bind, Except.bind,
       pure, Except.pure]
+theorem encLenMap_enc : ∀ (k v : Schema) (es : List (Value × Value)) (b : Bytes), wfS k = true → wfS v = true →
+    encMap k v es = .ok b → encLenMap k v es = .ok b.length
+  | _, _, [], b, _, _, h => by simp [encMap] at h; subst h; simp [encLenMap]
+  | k, v, (x, y) :: r, b, hk, hv, h => by
+    simp only [encMap] at h
+    obtain ⟨a, ha, h2⟩ := bind_ok h
+    obtain ⟨c, hc, h3⟩ := bind_ok h2
+    obtain ⟨d, hd, h4⟩ := bind_ok h3
+    simp only [pure, Except.pure] at h4; cases h4
+    simp [encLenMap, encLen_enc k x a hk ha, encLen_enc v y c hv hc, encLenMap_enc k v r d hk hv hd, bind,
+      Except.bind, pure, Except.pure, Nat.add_assoc]
 end
 
 end Ndn.Codec
